@@ -338,6 +338,14 @@ class Interp:
         if k == 'float':
             return float(v[1])
         if k == 'opaque':
+            im = re.match(r'^(?:core::|std::)?(i8|i16|i32|i64|i128|isize|u8|u16|u32|u64|u128|usize)::(MIN|MAX|BITS)$', v[1])
+            if im:
+                w, signed = INT_TYPES[im.group(1)]
+                if im.group(2) == 'BITS':
+                    return w
+                if im.group(2) == 'MIN':
+                    return -(1 << (w - 1)) if signed else 0
+                return (1 << (w - 1)) - 1 if signed else (1 << w) - 1
             c = self.CONSTS.get(v[1])
             if c is not None:
                 return c
